@@ -3,6 +3,11 @@
 import json, os, sys
 HERE = os.path.dirname(os.path.abspath(__file__))
 CLAIMED = {
+ "C13": ("model_checking",
+         "exhaustive enumeration of objects on a small coordinate lattice x every box order type (per-axis bounds from the object's own coordinates, midpoints and outside values), executed on the real library against an independent closed point-in-box reference",
+         "Objects: all point clouds of 1-3 lattice points, curve / surface cell patterns incl. unused and coincident vertices and all vertex permutations, 2-D grids over shapes x sizes x rotations x dips, block models, octrees, drillholes, groups, tipper and DC surveys; boxes: every pair lo<=hi per axis from {coordinates, midpoints, min-1, max+1}, 2- and 3-column extents, inverse on/off (full product below a cap, selection-class and order-type representatives above it). mask_by_extent on every box; copy_from_extent (and a second selection on the copy) per distinct selection; clauses are the sentences of the statement.",
+         "Membership is exact on the source coordinates (bounds are the coordinates themselves); copy centres matched at 1e-9 relative; order of vertices / cells in a copy and non-selection attributes are C12's business.",
+         "DESIGN.md §4 C13"),
  "C03": ("model_checking",
          "reflective exhaustive enumeration (every concrete class x every settable attribute x >=2 domain values) and all ordered attribute pairs, each history executed on the real library with re-open before / between / after; live, re-open and raw-HDF5 observers",
          "Targets: one populated instance of each of the 65 concrete entity classes (discovered reflectively; a class without fixture is a harness error), their types, the project header, concatenated holes / data / property groups, colour and value maps. Histories: assign one attribute (as created, and on the entity re-loaded r+), all ordered pairs of attributes of one entity, with re-open between the two; oracle cascade: later reader can read, reader sees the assigned value, live getter == re-opened getter for every attribute of the entity, raw stored value == assigned.",
